@@ -301,4 +301,6 @@ __CPROVER_ensures((global_error.json == NULL && global_error.position == 0) ==> 
 __CPROVER_assigns();
 
 
+#include "c_print.h"
+
 #endif
